@@ -5,6 +5,7 @@ import (
 	"context"
 	"errors"
 	"fmt"
+	"github.com/ethereum/go-ethereum/core/state"
 	"math/big"
 	"reflect"
 	"sort"
@@ -113,6 +114,9 @@ type exRun struct {
 	addr      common.Address
 	pan       string
 	env       *impl.Env
+	tracer    *vm.Tracer     // the tracer whose answers are dumped (the EVM's own; a fresh one for a reference run)
+	state     *state.StateDB // the state after the run
+	noArtela  bool           // the case describes a run WITHOUT the Artela additions (reference implementation)
 	created   []common.Address
 	touched   map[common.Address]map[common.Hash]bool
 	extraAdr  map[common.Address]bool
@@ -150,6 +154,7 @@ func runScenario(cs *exCase, w *world, u progen.Universe, code0 []byte, debug bo
 	}
 	env := impl.NewEnv(impl.Opts{Fork: cs.Fork, Tracer: tr, JP: cs.JP, Transfer: wrapTransfer})
 	r.env = env
+	r.tracer, r.state = env.EVM.Tracer(), env.State
 	w.apply(env.State)
 	seenAddrs := map[common.Address]bool{exCaller: true, u.EOA: true, u.Empty: true}
 	for _, a := range u.Contracts {
@@ -741,6 +746,11 @@ func cmdExec(args []string) error {
 
 // genExecCase draws one scenario: configuration, pre-state, codes, Aspect bindings and behaviours.
 func genExecCase(rr *rng.R, u progen.Universe, forks []string) (exCase, *world, []byte) {
+	return genExecCaseOpts(rr, u, forks, true)
+}
+
+// genExecCaseOpts: journal = false gives standard programs only (no journal instructions)
+func genExecCaseOpts(rr *rng.R, u progen.Universe, forks []string, journal bool) (exCase, *world, []byte) {
 	fork := forks[rr.Intn(len(forks))]
 	curFork = fork
 	fi := impl.ForkIndex(fork)
@@ -762,7 +772,7 @@ func genExecCase(rr *rng.R, u progen.Universe, forks []string) (exCase, *world, 
 	}
 	w := &world{Code: map[common.Address][]byte{}, Storage: map[common.Address]map[common.Hash]common.Hash{},
 		Balance: map[common.Address]*big.Int{}, Nonce: map[common.Address]uint64{}}
-	opts := progen.Opts{Fork: fi, MaxSnips: 10, Cancun: fork == "Cancun", Journal: true, SmallMem: true}
+	opts := progen.Opts{Fork: fi, MaxSnips: 10, Cancun: fork == "Cancun", Journal: journal, SmallMem: true}
 	// focused families: journal-heavy programs (attribution after refused creates / failed calls), reverting callees under failing Aspects
 	focus := rr.Intn(4)
 	opts.JournalHeavy = focus == 1
@@ -790,7 +800,7 @@ func genExecCase(rr *rng.R, u progen.Universe, forks []string) (exCase, *world, 
 	w.Nonce[exCaller] = uint64(rr.Intn(3))
 	code0 := w.Code[u.Contracts[0]]
 	if cs.Entry >= 4 {
-		code0 = progen.Program(rr, u, progen.Opts{Fork: fi, MaxSnips: 6, Journal: true, SmallMem: true})
+		code0 = progen.Program(rr, u, progen.Opts{Fork: fi, MaxSnips: 6, Journal: journal, SmallMem: true})
 		cs.Codes["init"] = fmt.Sprintf("%x", code0)
 	}
 	cs.Bindings, cs.Aspects = genBindings(rr, u)
@@ -817,7 +827,7 @@ func buildExecLineFrom(cs *exCase, scriptRun, obsRun *exRun, w *world, u progen.
 	fi := impl.ForkIndex(cs.Fork)
 	l := items.New("EX")
 	// cfg
-	l.Open().N(1).Bool(cs.JP).Bool(cs.Debug).Bool(cs.AspLog && cs.Debug).Bool(fi >= 1).Bool(fi >= 3).Bool(fi >= 8).Bool(fi >= 9).Close()
+	l.Open().Bool(!obsRun.noArtela).Bool(cs.JP).Bool(cs.Debug).Bool(cs.AspLog && cs.Debug).Bool(fi >= 1).Bool(fi >= 3).Bool(fi >= 8).Bool(fi >= 9).Close()
 	// world
 	l.Open().Open()
 	var addrs []common.Address
@@ -928,7 +938,7 @@ func buildExecLineFrom(cs *exCase, scriptRun, obsRun *exRun, w *world, u progen.
 	l.Close()
 	writeObservedEvents(l, obsRun.rec.Events)
 	// tracer queries: call tree + balance journals of every account seen
-	tr := obsRun.env.EVM.Tracer()
+	tr := obsRun.tracer
 	l.Open()
 	l.Open().N(14)
 	if !impl.DumpCallTree(l, tr.CallTree()) {
@@ -963,7 +973,7 @@ func buildExecLineFrom(cs *exCase, scriptRun, obsRun *exRun, w *world, u progen.
 	}
 	l.Close()
 	// world after
-	st := obsRun.env.State
+	st := obsRun.state
 	l.Open().Open()
 	for _, a := range addrs {
 		l.Open()
